@@ -356,7 +356,7 @@ pub trait PathImpl: 'static {
 		loop {
 			match (self_it.next(), prefix_it.next()) {
 				(Some(self_seg), Some(prefix_seg))
-					if self_seg.as_pct_str() == prefix_seg.as_pct_str() => {}
+					if crate::utils::pct_eq(self_seg.as_pct_str(), prefix_seg.as_pct_str()) => {}
 				(_, Some(_)) => return None,
 				(Some(seg), None) => buf.as_path_mut().push(seg),
 				(None, None) => break,
